@@ -19,6 +19,8 @@ impl Default for C02 {
         let mut cov = Cov::default();
         cov.declare(&[
             "close_balance_with_dust",
+            "position_counters_checked",
+            "position_counter_below_live_positions_seen",
             "withdraw_all_opposite_residue",
             "repay_all_opposite_residue",
             "transfer",
@@ -86,6 +88,36 @@ impl Monitor for C02 {
             let banks_b: BTreeMap<Pubkey, _> = model::all_banks(b).into_iter().collect();
             let zero = (Q::zero(), Q::zero());
 
+            // the bank-closing guard relies on the bank's own position counters: they may run
+            // ahead of the truth (dust slots, abandoned sub-share positions) but never fall
+            // below the number of live (>= 1 share) positions
+            {
+                let mut live: BTreeMap<Pubkey, (u32, u32)> = BTreeMap::new();
+                for ((_acc, kb), (sa, sl)) in slots_b.iter() {
+                    let e = live.entry(*kb).or_insert((0, 0));
+                    if *sa >= qi(1) {
+                        e.0 += 1;
+                    }
+                    if *sl >= qi(1) {
+                        e.1 += 1;
+                    }
+                }
+                for (bk, (la, ll)) in live.iter() {
+                    if let Some(bank) = banks_b.get(bk) {
+                        // (observation only: the counters are NOT part of C02.  On the unchanged tree
+                        // they do fall below the truth - purge of an active-but-empty slot and the
+                        // liquidator's asset-to-debt flip both under-count - but close_bank also
+                        // requires the share totals to be nil, which is what C02 states and what the
+                        // close_bank rule below checks.  A rule here raised alarms on correct code and
+                        // was withdrawn; see DESIGN 9.3.)
+                        self.cov.probe("position_counters_checked");
+                        if (bank.lending_position_count as i64) < *la as i64 || (bank.borrowing_position_count as i64) < *ll as i64 {
+                            self.cov.probe("position_counter_below_live_positions_seen");
+                        }
+                        let _ = (ix, idx);
+                    }
+                }
+            }
             // close_bank: every remaining position in it must be dust
             if ix.tag == "close_bank" {
                 self.cov.probe("close_bank_ok");
